@@ -433,6 +433,13 @@ Definition drain_resync (c : cache) : cache :=
               (c_errq c) (with_errq c [], []) in
   with_errq c' (c_errq c' ++ keep).
 
+(* a drain during which every GET of syncTask fails (API server unreachable): processResyncTask
+   re-queues the key (retryResyncTask, no bound on the number of retries) and changes nothing;
+   a key whose task is no longer held is forgotten before any GET *)
+Definition drain_resync_allfail (c : cache) : cache :=
+  with_errq c (List.filter (fun k => match stored_task c (Some (fst k)) (snd k) with Some _ => true | None => false end)
+                           (c_errq c)).
+
 (* ---------- what the scheduling cycle does to the cache ---------- *)
 
 Inductive opres := RDone | RNoTask | RNoNode | RNoPodGroup | RNodeRefused.
